@@ -25,7 +25,8 @@ for c in man["checks"]:
         print(f"{pid} seed={s} rc={p.returncode} {time.time()-t:.0f}s {tail[-1][:200] if tail else ''}", flush=True)
         if p.returncode != 0:
             bad.append((pid, s))
-            groups = p.stdout[p.stdout.find("violations grouped"):][:3000]
-            print(groups, flush=True)
+            i = p.stdout.find("violations grouped")
+            print(p.stdout[i:][:3000] if i >= 0 else p.stdout[-3000:], flush=True)
+            print(p.stderr[-3000:], flush=True)
 print("NOT CLEAN:", bad)
 sys.exit(1 if bad else 0)
